@@ -1,10 +1,10 @@
 SPECIFICATION Spec
 CONSTANTS
-  Scripts <- AllScripts
+  Scripts <- NonZero
   Direct = FALSE
   ForwardHalfClose = TRUE
   JoinBeforeError = FALSE
-  NeedFirstMessage = FALSE
+  NeedFirstMessage = TRUE
   FirstSendEOFFatal = FALSE
 INVARIANTS TranscriptEquivalence BackendSawPrefix BackendSawAll NoPumpOutlivesHandler
 PROPERTY Finishes
